@@ -134,6 +134,10 @@ class Driver:
     def rebuilt(self):
         """A new Driver whose tracks are CONSTRUCTED from a copy of this one's graph and array."""
         rb = self.cfg.rebuild
+        if "mode" in rb:
+            # construction mode of call 12 (direct / from_tracks / FeatureDict, ids kept or removed)
+            self.reconstruct(int(rb["mode"]))
+            return self
         shift = int(rb.get("shift", 0))
         nshift = int(rb.get("nshift", 0))       # 0-based NODE ids (without segmentation only)
         tr = self.tracks
